@@ -10,5 +10,6 @@ shift; shift 2>/dev/null || true
 export GOFLAGS=-mod=mod GOPROXY=off
 unset GOWORK
 mkdir -p "$VERIF/bin" "$VERIF/evidence" "$VERIF/reports"
-( cd "$VERIF/checker" && go build -o "$VERIF/bin/vcheck" ./cmd/vcheck ) || { echo "checker build failed"; echo "VIOLATION property=$PROP replay=checker-build-failed"; exit 1; }
+# (one retry: a build that loses a cache entry to a concurrent cache clean-up fails once and succeeds when repeated)
+( cd "$VERIF/checker" && { go build -o "$VERIF/bin/vcheck" ./cmd/vcheck || { sleep 2; go build -o "$VERIF/bin/vcheck" ./cmd/vcheck; }; } ) || { echo "checker build failed"; echo "VIOLATION property=$PROP replay=checker-build-failed"; exit 1; }
 exec "$VERIF/bin/vcheck" -property "$PROP" -tier "$TIER" -repo "${VERIF_REPO:-/repo}" -verif "$VERIF" "$@"
